@@ -6,6 +6,8 @@
 //!      creation): values/outputs against `Abra.Sem`;
 //!  (3) the capture analysis: per lambda (number of captures, number of locals) read off the real unoptimised
 //!      assembly (`make_closure n`, `push_nil m`) against the model of the analysis (`analysis …` requests).
+#[path = "../bg9cov.rs"]
+mod bg9cov;
 #[path = "../progen.rs"]
 mod progen;
 use progen::run::*;
@@ -89,6 +91,8 @@ fn templates(rng: &mut Rng) -> Vec<(String, String, String)> {
 fn main() {
     let mut ctx = Ctx::from_env("C19");
     let base = probe_shapes(&mut ctx);
+    // coverage-guided template families with their own oracles (harness/src/bg9cov.rs)
+    bg9cov::run_templates(&mut ctx, "C19");
 
     // ---- (1)
     let mut trng = Rng::new(ctx.rng.next());
